@@ -191,6 +191,18 @@ std::string resolve(std::string abs, bool follow_last = true)
 // errno if the parent chain is unusable, else 0
 int check_parent(const std::string& abs)
 {
+    // NAME_MAX / PATH_MAX of an ordinary Linux file system
+    if(abs.size() >= 4096) return ENAMETOOLONG;
+    for(std::size_t i = 1, j; i <= abs.size(); i = j + 1)
+    {
+        j = abs.find('/', i);
+        if(j == std::string::npos) j = abs.size();
+        if(j - i > 255)
+        {
+            sim::stats().count("fault.fired.natural.name_too_long");
+            return ENAMETOOLONG;
+        }
+    }
     std::string par = parent_of(abs);
     if(par == "/") return 0;
     auto it = g.fs.find(par);
@@ -634,6 +646,7 @@ int mkdir(const char* path, mode_t mode)
     if(int e = check_parent(abs))
     {
         if(e == ENOTDIR) note_hard("mkdir(" + abs + ") natural ENOTDIR", true);
+        if(e == ENAMETOOLONG) note_hard("mkdir(" + abs + ") natural ENAMETOOLONG", true);
         errno = e;
         return -1;
     }
@@ -2054,6 +2067,29 @@ void apply_mutation(const Op& op)
             break;
         }
     }
+    else if(n == "longname")
+    {
+        // a (legal) identifier longer than a file name can be: every occurrence of the k-th name="..."
+        // value, wherever it is referenced, gets the same long suffix
+        std::vector<std::pair<std::size_t, std::size_t>> names;
+        for(std::size_t i = d.find(" name=\""); i != std::string::npos; i = d.find(" name=\"", i + 1))
+        {
+            std::size_t q = d.find('"', i + 7);
+            if(q == std::string::npos) break;
+            names.push_back({i + 7, q});
+        }
+        if(!names.empty())
+        {
+            auto nm = names[(std::size_t)(op.uarg(0) % names.size())];
+            const std::string old_name = d.substr(nm.first, nm.second - nm.first);
+            if(!old_name.empty())
+            {
+                const std::string long_name = old_name + std::string((std::size_t)(op.uarg(1) % 2 ? 300 : 250 - std::min<std::size_t>(old_name.size(), 200)), 'x');
+                const std::string from = "\"" + old_name + "\"", to = "\"" + long_name + "\"";
+                for(std::size_t at = d.find(from); at != std::string::npos; at = d.find(from, at + to.size())) d.replace(at, from.size(), to);
+            }
+        }
+    }
     else if(n == "textdel" || n == "textset")
     {
         // element text nodes  >text</  : lost or replaced
@@ -2736,8 +2772,12 @@ Result exec_plan(const Plan& plan)
             }
             else
             {
-                // C09: rejected => diagnostic and no generated files left behind
-                if(ro.rc != 0)
+                // C09: rejected => diagnostic and no generated files left behind. A run that ended because
+                // the file system refused an output call (a name longer than NAME_MAX, an unusable output
+                // directory) was not rejected: what it leaves behind is C20's subject
+                if(ro.rc != 0 && ro.hard_output)
+                    sim::stats().count("c09.failed_on_output_side");
+                else if(ro.rc != 0)
                 {
                     for(auto& kv : g.fs)
                     {
@@ -3128,8 +3168,9 @@ Plan gen_c09(u64 seed, const std::string& tier)
         int n = (int)fl.range(1, 2);
         for(int i = 0; i < n; i++)
         {
-            switch(fl.below(14))
+            switch(fl.below(15))
             {
+            case 14: mut("mut.longname", {(long long)fl.below(100000), (long long)fl.below(2)}); break;
             case 12:
             case 13: mut("mut.xml", {(long long)fl.below(100000), (long long)fl.below(10)}); break;
             case 8:
